@@ -3,6 +3,6 @@ Require Extraction.
 Require Import ExtrOcamlBasic.
 Extraction "model.ml" nl cl nl_offsets cl_offsets static_assert_holds wfb eq_accesses accesses_in_bounds
   h_idiv h_imod h_shl h_shr h_asr h_lt_su h_lt_us h_eq_su h_narrow_f2i h_narrow_int
-  op_add op_sub op_mul op_unm op_bnot op_cdiv op_crem
+  op_add op_sub op_mul op_unm op_bnot op_cdiv op_crem op_tdiv op_tmod op_lt op_le op_eq
   emit_shl emit_shr emit_asr shl_fast_width_left shr_fast_width_left asr_fast_width_left
   ISO FWRAPV GNU I8 I16 I32 I64 U8 U16 U32 U64.
